@@ -115,6 +115,10 @@ def run(
     ms = _STATS.findall(out)
     if ms:
         r.generated, r.distinct = int(ms[-1][0]), int(ms[-1][1])
+    if not ms:
+        m2 = re.search(r"The number of states generated: (\d+)", out)
+        if m2:
+            r.generated = r.distinct = int(m2.group(1))
     md = _DEPTH.search(out)
     if md:
         r.depth = int(md.group(1))
